@@ -1,8 +1,9 @@
 // Verification hooks for the request-response protocol (cfg(feature = "verif") only, adds code
-// only): a wrapper that owns a real `RequestResponseProtocol` over a real `TransportService`,
-// lets an external harness inject `InnerTransportEvent`s, hands out scripted connections
-// (the receiving end of the `ProtocolCommand` channel), runs ONE iteration of the event loop
-// without blocking and dumps the private bookkeeping.
+// only): a wrapper that builds a real `RequestResponseProtocol` over a real `TransportService`,
+// hands out its REAL `run` future, lets an external harness inject `InnerTransportEvent`s and
+// play the connections (the receiving end of the `ProtocolCommand` channel); the event loop
+// publishes its private bookkeeping every time it comes back to its `select!`. (The copy of the
+// loop that earlier rounds stepped by hand is gone: nothing but the real loop runs.)
 
 use super::*;
 use crate::{
@@ -19,30 +20,12 @@ use crate::{
     types::ConnectionId,
 };
 
+use crate::multistream_select::ProtocolError;
 use multiaddr::Multiaddr;
 use tokio::sync::mpsc::{channel, error::TryRecvError};
 
 /// Per-thread log of the `TransportService::dial` calls and their immediate results.
 pub use crate::protocol::transport_service::verif_dial_log;
-
-/// Which `select!` arm of the event loop fired in [`VerifProtocol::step`].
-#[derive(Debug, Clone, Copy, PartialEq, Eq)]
-pub enum VerifStep {
-    /// Nothing was ready.
-    Idle,
-    /// A transport service event was handled.
-    Service,
-    /// An outbound request future finished.
-    RequestDone,
-    /// A response (or rejection) future finished.
-    ResponseDone,
-    /// An inbound request was read from its substream.
-    InboundRead,
-    /// A user command was handled.
-    Command,
-    /// The loop would have exited.
-    Exit,
-}
 
 /// Sorted copy of the private bookkeeping of [`RequestResponseProtocol`].
 #[derive(Debug, Default, Clone, PartialEq, Eq)]
@@ -98,6 +81,7 @@ pub struct VerifProtocol {
     next_connection: usize,
     codec: ProtocolCodec,
     protocol: ProtocolName,
+    next_request_id: Arc<AtomicUsize>,
 }
 
 impl VerifProtocol {
@@ -122,6 +106,29 @@ impl VerifProtocol {
         fallback_names: &[&'static str],
         channels: Option<(usize, usize)>,
     ) -> (Self, RequestResponseHandle) {
+        Self::new_full_keep_alive(
+            max_size,
+            timeout,
+            max_inbound,
+            dialable,
+            fallback_names,
+            channels,
+            Duration::from_secs(1_000_000_000),
+        )
+    }
+
+    /// Like [`Self::new_full`], with the keep-alive timeout of the `TransportService`: with a tiny
+    /// one every connection handle is downgraded as soon as time passes, and `open_substream` has
+    /// to upgrade it again (or fails with `ConnectionClosed` when the connection is gone).
+    pub fn new_full_keep_alive(
+        max_size: usize,
+        timeout: Option<Duration>,
+        max_inbound: Option<usize>,
+        dialable: &[PeerId],
+        fallback_names: &[&'static str],
+        channels: Option<(usize, usize)>,
+        keep_alive: Duration,
+    ) -> (Self, RequestResponseHandle) {
         let manager = TransportManagerBuilder::new().build();
         let mut handle = manager.transport_manager_handle();
         handle.register_transport(SupportedTransport::Tcp);
@@ -143,7 +150,7 @@ impl VerifProtocol {
             fallback_names.clone(),
             Arc::new(Default::default()),
             handle,
-            Duration::from_secs(1_000_000_000),
+            keep_alive,
             SubstreamKeepAlive::Yes,
         );
         let mut builder = ConfigBuilder::new(protocol.clone())
@@ -168,6 +175,7 @@ impl VerifProtocol {
             );
         }
         let codec = config.codec;
+        let next_request_id = Arc::clone(&config.next_request_id);
 
         (
             Self {
@@ -180,9 +188,28 @@ impl VerifProtocol {
                 next_connection: 0usize,
                 codec,
                 protocol,
+                next_request_id,
             },
             rr_handle,
         )
+    }
+
+    /// Set the shared request-id allocator (`fetch_add` wraps at `usize::MAX`).
+    pub fn set_next_request_id(&self, value: usize) {
+        self.next_request_id.store(value, Ordering::Relaxed);
+    }
+
+    /// Report that opening substream `id` failed with the `kind`-th of the `SubstreamError`
+    /// shapes that `RejectReason::from` / `on_substream_open_failure` distinguish; see
+    /// [`verif_open_failure_error`].
+    pub fn inject_substream_open_failure_any(&mut self, id: usize, kind: usize, peer: PeerId) {
+        self.permits.remove(&id);
+        let Some(tx) = self.tx.as_ref() else { return };
+        tx.try_send(InnerTransportEvent::SubstreamOpenFailure {
+            substream: SubstreamId::from(id),
+            error: verif_open_failure_error(kind, peer),
+        })
+        .expect("channel has room");
     }
 
     /// The local peer id (dialing it fails with `TriedToDialSelf`).
@@ -196,7 +223,7 @@ impl VerifProtocol {
     }
 
     /// Hand out the REAL event loop, `RequestResponseProtocol::run`, as a future to be polled by
-    /// the harness. Afterwards `step` and `dump` are unavailable; the scripted transport side
+    /// the harness. The scripted transport side
     /// (`inject_*`, `take_open_requests`, `break_connection`) keeps working.
     pub fn take_run(&mut self) -> BoxFuture<'static, ()> {
         let protocol = self.inner.take().expect("protocol not taken yet");
@@ -389,57 +416,6 @@ impl VerifProtocol {
             .expect("channel has room");
     }
 
-    /// One iteration of the event loop of [`RequestResponseProtocol::run`], with the same arms in
-    /// the same (biased) order, plus a last arm that returns when nothing is ready.
-    pub async fn step(&mut self) -> VerifStep {
-        let this = self.inner.as_mut().expect("protocol was handed out by take_run");
-        tokio::select! {
-            biased;
-
-            event = this.service.next() => match event {
-                Some(event) => {
-                    this.handle_service_event(event).await;
-                    VerifStep::Service
-                }
-                None => VerifStep::Exit,
-            },
-
-            event = this.pending_inbound.select_next_some(), if !this.pending_inbound.is_empty() => {
-                let (peer, request_id, fallback, event) = event;
-                let _ = this.on_substream_event(peer, request_id, fallback, event).await;
-                this.pending_outbound_cancels.remove(&request_id);
-                VerifStep::RequestDone
-            }
-
-            _ = this.pending_outbound_responses.next(), if !this.pending_outbound_responses.is_empty() => {
-                VerifStep::ResponseDone
-            }
-
-            event = this.pending_inbound_requests.next(), if !this.pending_inbound_requests.is_empty() => match event {
-                Some((peer, request_id, request, substream)) => {
-                    let _ = this.on_inbound_request(peer, request_id, request, substream).await;
-                    VerifStep::InboundRead
-                }
-                None => VerifStep::Exit,
-            },
-
-            command = this.command_rx.recv() => match command {
-                Some(command) => {
-                    this.handle_user_command(command).await;
-                    VerifStep::Command
-                }
-                None => VerifStep::Exit,
-            },
-
-            _ = std::future::ready(()) => VerifStep::Idle,
-        }
-    }
-
-    /// Sorted copy of the bookkeeping.
-    pub fn dump(&self) -> VerifDump {
-        dump_of(self.inner.as_ref().expect("protocol was handed out by take_run"))
-    }
-
     /// Overwrite what the transport manager believes about `peer` (decides the immediate result
     /// of `TransportService::dial`); tags as in `TransportManager::verif_force_peer_state`.
     pub fn force_manager_peer(&mut self, peer: PeerId, tag: usize) {
@@ -484,6 +460,64 @@ impl VerifProtocol {
         self.tx = None;
         self.connections.clear();
         self.permits.clear();
+    }
+}
+
+/// Number of error shapes [`verif_open_failure_error`] produces.
+pub const VERIF_OPEN_FAILURE_KINDS: usize = 15;
+
+/// Every variant of `SubstreamError`, plus the shapes singled out by `RejectReason::from` (the four
+/// `NotConnected` i/o errors) and by `on_substream_open_failure` (the multistream-select failure),
+/// plus near misses of those (the same shapes with another i/o error kind).
+pub fn verif_open_failure_error(kind: usize, peer: PeerId) -> SubstreamError {
+    use crate::multistream_select::NegotiationError as MsNegotiationError;
+    let io = |kind: ErrorKind| std::io::Error::from(kind);
+    match kind {
+        0 => SubstreamError::ConnectionClosed,
+        1 => SubstreamError::NegotiationError(NegotiationError::MultistreamSelectError(
+            MultistreamFailed,
+        )),
+        2 => SubstreamError::IoError(ErrorKind::NotConnected),
+        3 => SubstreamError::ChannelClogged,
+        4 => SubstreamError::PeerDoesNotExist(peer),
+        5 => SubstreamError::IoError(ErrorKind::BrokenPipe),
+        6 => SubstreamError::YamuxError(
+            crate::yamux::ConnectionError::NoMoreStreamIds,
+            Direction::Outbound(SubstreamId::from(0usize)),
+        ),
+        7 => SubstreamError::ReadFailure(None),
+        8 => SubstreamError::WriteFailure(None),
+        9 => SubstreamError::NegotiationError(NegotiationError::Timeout),
+        10 => SubstreamError::YamuxError(
+            crate::yamux::ConnectionError::Io(io(ErrorKind::NotConnected)),
+            Direction::Outbound(SubstreamId::from(0usize)),
+        ),
+        11 => SubstreamError::NegotiationError(NegotiationError::IoError(ErrorKind::NotConnected)),
+        12 => SubstreamError::NegotiationError(NegotiationError::MultistreamSelectError(
+            MsNegotiationError::ProtocolError(ProtocolError::IoError(io(ErrorKind::NotConnected))),
+        )),
+        13 => SubstreamError::NegotiationError(NegotiationError::MultistreamSelectError(
+            MsNegotiationError::ProtocolError(ProtocolError::IoError(io(ErrorKind::BrokenPipe))),
+        )),
+        _ => SubstreamError::YamuxError(
+            crate::yamux::ConnectionError::Io(io(ErrorKind::BrokenPipe)),
+            Direction::Outbound(SubstreamId::from(0usize)),
+        ),
+    }
+}
+
+/// Index of the `SubstreamError` variant (an exhaustive match: a new variant breaks the build of
+/// the hooks until [`verif_open_failure_error`] produces it as well).
+pub fn verif_substream_error_variant(error: &SubstreamError) -> usize {
+    match error {
+        SubstreamError::ConnectionClosed => 0,
+        SubstreamError::ChannelClogged => 1,
+        SubstreamError::PeerDoesNotExist(_) => 2,
+        SubstreamError::IoError(_) => 3,
+        SubstreamError::YamuxError(_, _) => 4,
+        SubstreamError::ReadFailure(_) => 5,
+        SubstreamError::WriteFailure(_) => 6,
+        SubstreamError::NegotiationError(_) => 7,
     }
 }
 
